@@ -322,9 +322,27 @@ class Built:
         with seams.quiet():
             obj = k.build(parent, (self.desc.get('inst_names') or {}).get(str(nid), 'u%d' % nid), ins, outs, n['p'])
         ins_after, outs_after = [id(w) for w in ins], [id(w) for w in outs]
-        # ... and the caller is free to reuse its lists for something else afterwards
-        ins.clear()
-        outs.clear()
+        # ... and the caller is free to reuse its lists for something else afterwards: empty them, or go on
+        # building the next, wider gate from the same list (append another wire, reorder)
+        mode = nid % 3
+        extra = None
+        if mode and ins0:
+            w0 = ins0[0].getWidth()
+            extra = next((w for r, w in sorted(self.wires.items()) if w.getWidth() == w0 and all(w is not x for x in ins0 + outs0)), None)
+        if extra is not None:
+            if mode == 2:
+                ins.reverse()
+            ins.append(extra)
+        else:
+            ins.clear()
+        extra_o = None
+        if mode and outs0:
+            w0 = outs0[0].getWidth()
+            extra_o = next((w for r, w in sorted(self.wires.items()) if w.getWidth() == w0 and all(w is not x for x in ins0 + outs0)), None)
+        if extra_o is not None:
+            outs.append(extra_o)
+        else:
+            outs.clear()
         if ins_after != [id(w) for w in ins0] or outs_after != [id(w) for w in outs0]:
             # the lists belong to the caller, who goes on using them (e.g. to wire the next block)
             raise Violation('caller-list-mutated', 'fn:%s:caller-list-reordered' % n['kind'], 0,
